@@ -115,6 +115,226 @@ def _amount_offset(node, src, negate):
     raise ValueError("unrecognised range bound in repeat_box_coord: " + ast.dump(node)[:80])
 
 
+# ---- structural lookup: private helpers and locals are found by what they contain, never by their name -----------
+def _module_funcs(tree):
+    return [n for n in tree.body if isinstance(n, ast.FunctionDef)]
+
+
+def _find_func(tree, what, pred):
+    hits = [f for f in _module_funcs(tree) if pred(f)]
+    if len(hits) != 1:
+        raise ValueError(f"{what}: expected exactly one such function, found {[h.name for h in hits]}")
+    return hits[0]
+
+
+def _is_ortho_helper(f):
+    return any(isinstance(n, ast.AugAssign) and isinstance(n.target, ast.Subscript) and isinstance(n.target.slice, ast.Compare)
+               for n in ast.walk(f))
+
+
+def _is_tric_helper(f):
+    return any(isinstance(n, ast.Call) and _callname(n) in ("argmin", "argmax") for n in ast.walk(f)) and not f.name.startswith("index_") \
+        and f.name not in ("displacement",)
+
+
+def _index_dispatcher(gt):
+    """the private function all four public index_* wrappers return a call of"""
+    names = set()
+    for w_ in ("index_displacement", "index_distance", "index_angle", "index_dihedral"):
+        f_ = _func(gt, w_)
+        rets = [n.value for n in ast.walk(f_) if isinstance(n, ast.Return) and isinstance(n.value, ast.Call)]
+        if len(rets) != 1:
+            raise ValueError(f"{w_}: `return <dispatcher>(function, width, *args, **kwargs)` not found")
+        names.add(_callname(rets[0]))
+    if len(names) != 1:
+        raise ValueError(f"the index wrappers call different dispatchers: {sorted(names)}")
+    return _func(gt, names.pop())
+
+
+def _range_loops(f):
+    """`for v in range(a, b)` loops of f in source order: [(target name, For node)]"""
+    loops = [n for n in ast.walk(f) if isinstance(n, ast.For) and isinstance(n.target, ast.Name)
+             and isinstance(n.iter, ast.Call) and _callname(n.iter) == "range" and len(n.iter.args) == 2]
+    return sorted(loops, key=lambda n: (n.lineno, n.col_offset))
+
+
+def _nested3(f, what):
+    """three directly nested range loops (outer, middle, inner)"""
+    for a_ in _range_loops(f):
+        for b_ in a_.body:
+            if isinstance(b_, ast.For) and b_ in _range_loops(f):
+                for c_ in b_.body:
+                    if isinstance(c_, ast.For) and c_ in _range_loops(f):
+                        return a_, b_, c_
+    raise ValueError(f"{what}: three nested `for ... in range(a, b)` loops not found")
+
+
+def _single_assigns(f):
+    """name -> expr for names assigned exactly once by a plain `name = expr`"""
+    cnt, val = {}, {}
+    for n in ast.walk(f):
+        if isinstance(n, ast.Assign) and len(n.targets) == 1 and isinstance(n.targets[0], ast.Name):
+            cnt[n.targets[0].id] = cnt.get(n.targets[0].id, 0) + 1
+            val[n.targets[0].id] = n.value
+        elif isinstance(n, (ast.AugAssign, ast.For)) and isinstance(getattr(n, "target", None), ast.Name):
+            cnt[n.target.id] = cnt.get(n.target.id, 0) + 2
+    return {k_: v_ for k_, v_ in val.items() if cnt[k_] == 1}
+
+
+def _resolve(node, asg, depth=6):
+    while depth and isinstance(node, ast.Name) and node.id in asg:
+        node, depth = asg[node.id], depth - 1
+    return node
+
+
+def _param_names(f):
+    a = f.args
+    return [x.arg for x in a.posonlyargs + a.args + a.kwonlyargs] + ([a.vararg.arg] if a.vararg else []) + ([a.kwarg.arg] if a.kwarg else [])
+
+
+def _alpha_map(f, private_params=()):
+    """locals (and the given private parameters) -> L0, L1, ... in order of first binding"""
+    params = set(_param_names(f)) - set(private_params)
+    order = list(private_params)
+    binds = []
+    for n in ast.walk(f):
+        if isinstance(n, ast.Name) and isinstance(n.ctx, ast.Store):
+            binds.append((n.lineno, n.col_offset, n.id))
+    for _, _, nm in sorted(binds):
+        if nm not in params and nm not in order:
+            order.append(nm)
+    return {nm: f"L{i}" for i, nm in enumerate(order)}
+
+
+def _unp(node, ren, inline=None):
+    """ast.unparse with locals renamed (alpha-normal form); `inline`: single-assignment locals replaced by their definition"""
+    import copy
+    node = copy.deepcopy(node)
+
+    class R(ast.NodeTransformer):
+        def visit_Name(self, n):  # noqa: N802
+            if inline and n.id in inline and isinstance(n.ctx, ast.Load):
+                return self.visit(copy.deepcopy(inline[n.id]))
+            if n.id in ren:
+                return ast.copy_location(ast.Name(id=ren[n.id], ctx=n.ctx), n)
+            return n
+    return ast.unparse(R().visit(node))
+
+
+def _box_choice_table(f):
+    """Which box does the index dispatcher hand on?  The body is interpreted for every combination of
+    (periodic, explicit box given, atoms is an AtomArray/Stack, atoms.box is not None); tests on other things are taken
+    as false (valid input).  -> {(periodic, explicit, is_atoms, own): 'None' | 'box' | 'atoms.box' | 'raise'}"""
+    def cond(t, env):
+        if isinstance(t, ast.Name) and t.id == "periodic":
+            return env["periodic"]
+        if isinstance(t, ast.UnaryOp) and isinstance(t.op, ast.Not):
+            v_ = cond(t.operand, env)
+            return None if v_ is None else not v_
+        if isinstance(t, ast.BoolOp):
+            vs = [cond(v_, env) for v_ in t.values]
+            if any(v_ is None for v_ in vs):
+                return None
+            return all(vs) if isinstance(t.op, ast.And) else any(vs)
+        if isinstance(t, ast.Compare) and len(t.ops) == 1 and isinstance(t.ops[0], (ast.Is, ast.IsNot)) \
+                and isinstance(t.comparators[0], ast.Constant) and t.comparators[0].value is None:
+            left = ast.unparse(t.left)
+            if left == "box":
+                is_none = env["cur"] == "None" if env["cur"] in ("None",) else (not env["explicit"] if env["cur"] == "box" else not env["own"])
+            elif left == "atoms.box":
+                is_none = not env["own"]
+            else:
+                return None
+            return is_none if isinstance(t.ops[0], ast.Is) else not is_none
+        if isinstance(t, ast.Call) and _callname(t) == "isinstance" and ast.unparse(t.args[0]) == "atoms":
+            return env["is_atoms"]
+        return None
+
+    def run(stmts, env):
+        for st in stmts:
+            if isinstance(st, ast.If):
+                c = cond(st.test, env)
+                if c is None:
+                    continue                      # a test on something else (index width, ...): valid input passes
+                r = run(st.body if c else st.orelse, env)
+                if r is not None:
+                    return r
+            elif isinstance(st, ast.Raise):
+                return "raise"
+            elif isinstance(st, ast.Assign) and len(st.targets) == 1 and ast.unparse(st.targets[0]) == "box":
+                v_ = ast.unparse(st.value)
+                if v_ not in ("None", "atoms.box"):
+                    raise ValueError(f"index dispatcher: unexpected `box = {v_}`")
+                env["cur"] = v_
+            elif isinstance(st, ast.Return):
+                if not (isinstance(st.value, ast.Call) and st.value.args):
+                    raise ValueError("index dispatcher: unexpected return")
+                last = ast.unparse(st.value.args[-1])
+                if last == "box":
+                    last = env["cur"]
+                if last not in ("None", "box", "atoms.box"):
+                    raise ValueError(f"index dispatcher: unexpected box argument `{last}`")
+                if last == "box" and not env["explicit"]:
+                    last = "None"                 # the explicit argument is None
+                if last == "atoms.box" and not env["own"]:
+                    last = "None"                 # the attribute is None
+                return last
+        return None
+    tab = {}
+    for per in (False, True):
+        for exp in (False, True):
+            for isa in (False, True):
+                for own in (False, True):
+                    if own and not isa:
+                        continue
+                    env = {"periodic": per, "explicit": exp, "is_atoms": isa, "own": own, "cur": "box"}
+                    r = run(f.body, env)
+                    if r is None:
+                        raise ValueError("index dispatcher: a path without return")
+                    tab[(per, exp, isa, own)] = r
+    return tab
+
+
+def _precedence_of(tab):
+    def want(explicit_first):
+        t = {}
+        for (per, exp, isa, own) in tab:
+            if not per:
+                r = "None"
+            elif explicit_first:
+                r = "box" if exp else ("atoms.box" if own else ("None" if isa else "raise"))
+            else:
+                r = "atoms.box" if (isa and own) else ("box" if exp else "raise")
+            t[(per, exp, isa, own)] = r
+        return t
+    if tab == want(True):
+        return "explicitFirst"
+    if tab == want(False):
+        return "ownFirst"
+    raise ValueError(f"index dispatcher: unrecognised box selection {sorted(tab.items())}")
+
+
+def _tric_product(f):
+    """the comprehension form `[... for i, j, k in itertools.product(range(a, b), repeat=3)]` of the candidate shifts"""
+    for n in ast.walk(f):
+        if isinstance(n, ast.ListComp) and len(n.generators) == 1:
+            g = n.generators[0]
+            it = g.iter
+            if isinstance(it, ast.Call) and _callname(it) == "product" and isinstance(g.target, ast.Tuple) and len(g.target.elts) == 3 \
+                    and len(it.args) == 1 and any(k_.arg == "repeat" and ast.unparse(k_.value) == "3" for k_ in it.keywords):
+                return n, [e.id for e in g.target.elts], it.args[0]
+    return None
+
+
+def _tric_ranges(f, src):
+    pr = _tric_product(f)
+    if pr is not None:
+        r_ = _int_range(pr[2], src)
+        return r_, r_, r_
+    a_, b_, c_ = _nested3(f, "the triclinic-box helper")
+    return _int_range(a_.iter, src), _int_range(b_.iter, src), _int_range(c_.iter, src)
+
+
 def extract_constants():
     from common import paths
     gsrc = open(os.path.join(paths.SRC, "biotite/structure/geometry.py")).read()
@@ -122,7 +342,7 @@ def extract_constants():
     gt, bt = ast.parse(gsrc), ast.parse(bsrc)
     out = {}
     # --- fractions[fractions > 0.5] -= 1
-    f = _func(gt, "_displacement_orthogonal_box")
+    f = _find_func(gt, "the orthogonal-box helper (`x[x > c] -= s`)", _is_ortho_helper)
     hit = [n for n in ast.walk(f) if isinstance(n, ast.AugAssign) and isinstance(n.target, ast.Subscript)
            and isinstance(n.target.slice, ast.Compare)]
     if len(hit) != 1:
@@ -137,27 +357,19 @@ def extract_constants():
     # --- fractions % 1 in displacement / move_inside_box
 
     def modulus(fn, src, what):
-        mods = [n for n in ast.walk(fn) if isinstance(n, ast.BinOp) and isinstance(n.op, ast.Mod)
-                and isinstance(n.left, ast.Name) and n.left.id == "fractions"]
+        mods = [n for n in ast.walk(fn) if isinstance(n, ast.BinOp) and isinstance(n.op, ast.Mod) and isinstance(n.left, ast.Name)]
         if len(mods) != 1:
             raise ValueError(f"{what}: `fractions % m` not found exactly once")
         return _const_fraction(mods[0].right, src)
     out["dispMod"] = modulus(_func(gt, "displacement"), gsrc, "displacement")
     out["moveMod"] = modulus(_func(bt, "move_inside_box"), bsrc, "move_inside_box")
     # --- triclinic candidate loops
-    f = _func(gt, "_displacement_triclinic_box")
-    loops = [n for n in ast.walk(f) if isinstance(n, ast.For) and isinstance(n.target, ast.Name) and n.target.id in "ijk"]
-    byname = {n.target.id: _int_range(n.iter, gsrc) for n in loops}
-    if sorted(byname) != ["i", "j", "k"]:
-        raise ValueError("_displacement_triclinic_box: loops over i, j, k not found")
-    out["shiftI"], out["shiftJ"], out["shiftK"] = byname["i"], byname["j"], byname["k"]
+    f = _find_func(gt, "the triclinic-box helper (argmin over candidate images)", _is_tric_helper)
+    out["shiftI"], out["shiftJ"], out["shiftK"] = _tric_ranges(f, gsrc)
     # --- is_orthogonal
     f = _func(bt, "is_orthogonal")
-    tols = [n for n in ast.walk(f) if isinstance(n, ast.Assign) and len(n.targets) == 1
-            and isinstance(n.targets[0], ast.Name) and n.targets[0].id == "tol"]
-    if len(tols) != 1:
-        raise ValueError("is_orthogonal: `tol = ...` not found")
-    out["orthoTol"] = _const_fraction(tols[0].value, bsrc)
+    asg_ = _single_assigns(f)
+    tolvals = set()
     pairs = []
     for c in ast.walk(f):
         if isinstance(c, ast.Compare) and len(c.ops) == 1 and isinstance(c.ops[0], (ast.Lt, ast.LtE)):
@@ -167,16 +379,16 @@ def extract_constants():
                     mid = s_.slice.elts[1]
                     if isinstance(mid, ast.Constant) and isinstance(mid.value, int):
                         rows.append(mid.value)
-            if len(rows) == 2 and isinstance(c.comparators[0], ast.Name) and c.comparators[0].id == "tol":
+            if len(rows) == 2:
+                tolvals.add(_const_fraction(_resolve(c.comparators[0], asg_), bsrc))
                 pairs.append(tuple(rows))
-    if not pairs:
-        raise ValueError("is_orthogonal: no `abs(vector_dot(box[..., i, :], box[..., j, :])) < tol` found")
+    if not pairs or len(tolvals) != 1:
+        raise ValueError("is_orthogonal: no `abs(vector_dot(box[..., i, :], box[..., j, :])) < tol` with one tolerance found")
+    out["orthoTol"] = tolvals.pop()
     out["orthoPairs"] = sorted(pairs)
     # --- repeat_box_coord ranges, repeat_box passes amount on
     f = _func(bt, "repeat_box_coord")
-    loops = [n for n in ast.walk(f) if isinstance(n, ast.For) and isinstance(n.target, ast.Name) and n.target.id in "ijk"]
-    if len(loops) != 3:
-        raise ValueError("repeat_box_coord: loops over i, j, k not found")
+    loops = list(_nested3(f, "repeat_box_coord"))
     offs = set()
     for lp in loops:
         it = lp.iter
@@ -186,10 +398,18 @@ def extract_constants():
     if len(offs) != 1:
         raise ValueError("repeat_box_coord: the three loops differ")
     out["repLo"], out["repHi"] = offs.pop()
-    skip = [n for n in ast.walk(f) if isinstance(n, ast.If) and isinstance(n.test, ast.BoolOp) and isinstance(n.test.op, ast.Or)
-            and len(n.test.values) == 3 and all(isinstance(v, ast.Compare) and isinstance(v.ops[0], ast.NotEq) for v in n.test.values)]
-    if len(skip) != 1:
-        raise ValueError("repeat_box_coord: `if i != 0 or j != 0 or k != 0` not found")
+    lv = [lp.target.id for lp in loops]
+
+    def zero_tests(t, op_cls, cmp_cls):
+        return (isinstance(t, ast.BoolOp) and isinstance(t.op, op_cls) and len(t.values) == 3
+                and sorted(ast.unparse(v.left) for v in t.values if isinstance(v, ast.Compare)) == sorted(lv)
+                and all(isinstance(v, ast.Compare) and isinstance(v.ops[0], cmp_cls) and ast.unparse(v.comparators[0]) == "0" for v in t.values))
+    inner = loops[2].body
+    wrap = [n for n in inner if isinstance(n, ast.If) and zero_tests(n.test, ast.Or, ast.NotEq) and not n.orelse]          # if any != 0: <work>
+    guard = [n for n in inner if isinstance(n, ast.If) and zero_tests(n.test, ast.And, ast.Eq) and not n.orelse
+             and len(n.body) == 1 and isinstance(n.body[0], ast.Continue)]                                                # if all == 0: continue
+    if len(wrap) + len(guard) != 1 or (wrap and len(inner) != 1) or (guard and inner[0] is not guard[0]):
+        raise ValueError("repeat_box_coord: the test that skips exactly the central box (0, 0, 0) not found")
     f = _func(bt, "repeat_box")
     calls = [n for n in ast.walk(f) if isinstance(n, ast.Call) and isinstance(n.func, ast.Name) and n.func.id == "repeat_box_coord"]
     if len(calls) != 1:
@@ -198,34 +418,8 @@ def extract_constants():
     passed = (len(c.args) >= 3 and isinstance(c.args[2], ast.Name) and c.args[2].id == "amount") or any(
         k.arg == "amount" and isinstance(k.value, ast.Name) and k.value.id == "amount" for k in c.keywords)
     out["repeatBoxPassesAmount"] = bool(passed)
-    # --- _call_non_index_function: which test comes first when the box for periodic=True is chosen?
-    f = _func(gt, "_call_non_index_function")
-    per = [n for n in ast.walk(f) if isinstance(n, ast.If) and isinstance(n.test, ast.Name) and n.test.id == "periodic"]
-    if len(per) != 1 or not per[0].body or not isinstance(per[0].body[0], ast.If):
-        raise ValueError("_call_non_index_function: `if periodic:` with a nested `if` not found")
-
-    def is_box_none(t):
-        return (isinstance(t, ast.Compare) and isinstance(t.left, ast.Name) and t.left.id == "box" and len(t.ops) == 1
-                and isinstance(t.ops[0], ast.Is) and isinstance(t.comparators[0], ast.Constant) and t.comparators[0].value is None)
-
-    def mentions_isinstance(t):
-        return any(isinstance(n, ast.Call) and isinstance(n.func, ast.Name) and n.func.id == "isinstance" for n in ast.walk(t))
-
-    def assigns_own_box(stmts):
-        return any(isinstance(n, ast.Assign) and isinstance(n.targets[0], ast.Name) and n.targets[0].id == "box"
-                   and isinstance(n.value, ast.Attribute) and n.value.attr == "box" for st in stmts for n in ast.walk(st))
-
-    def raises(stmts):
-        return any(isinstance(n, ast.Raise) for st in stmts for n in ast.walk(st))
-    first = per[0].body[0]
-    if is_box_none(first.test) and first.body and isinstance(first.body[0], ast.If) and mentions_isinstance(first.body[0].test) \
-            and assigns_own_box(first.body[0].body) and raises(first.body[0].orelse) and not first.orelse:
-        out["boxPrecedence"] = "explicitFirst"
-    elif mentions_isinstance(first.test) and assigns_own_box(first.body) and len(first.orelse) == 1 \
-            and isinstance(first.orelse[0], ast.If) and is_box_none(first.orelse[0].test) and raises(first.orelse[0].body):
-        out["boxPrecedence"] = "ownFirst"
-    else:
-        raise ValueError("_call_non_index_function: unrecognised box selection for periodic=True")
+    # --- the index dispatcher: which box is handed on (decision table over periodic / explicit box / atoms object / own box)
+    out["boxPrecedence"] = _precedence_of(_box_choice_table(_index_dispatcher(gt)))
     # --- distance / angle / dihedral: which atoms every `displacement(...)` call connects, and does it pass `box` on?
     def disp_calls(fname):
         f_ = _func(gt, fname)
@@ -252,26 +446,35 @@ def extract_constants():
                 and isinstance(n.value.value, ast.Name) and n.value.value.id == "box" and isinstance(n.value.slice, ast.Constant):
             rows[n.targets[0].id] = n.value.slice.value
     dots = {}
-    for n in ast.walk(f):
-        if isinstance(n, ast.Assign) and isinstance(n.targets[0], ast.Name) and n.targets[0].id in ("alpha", "beta", "gamma"):
+    rets_ = [n.value for n in ast.walk(f) if isinstance(n, ast.Return)]
+    if len(rets_) != 1 or not isinstance(rets_[0], ast.Tuple) or len(rets_[0].elts) != 6:
+        raise ValueError("unitcell_from_vectors: `return len_a, len_b, len_c, alpha, beta, gamma` not found")
+    asg_ = _single_assigns(f)
+    for label_, el_ in zip(("alpha", "beta", "gamma"), rets_[0].elts[3:]):
+        if True:
             pair = (9, 9)          # not a dot product of two box vectors
-            val = n.value
+            val = _resolve(el_, asg_)
             if isinstance(val, ast.Call) and getattr(val.func, "attr", "") == "arccos" and val.args and isinstance(val.args[0], ast.BinOp) \
                     and isinstance(val.args[0].op, ast.Div):
                 num = val.args[0].left
                 if isinstance(num, ast.Call) and getattr(num.func, "attr", getattr(num.func, "id", "")) in ("dot", "vector_dot") and len(num.args) == 2 \
                         and all(isinstance(a_, ast.Name) and a_.id in rows for a_ in num.args):
                     pair = tuple(sorted(rows[a_.id] for a_ in num.args))
-            dots[n.targets[0].id] = pair
+            dots[label_] = pair
     if sorted(dots) != ["alpha", "beta", "gamma"]:
         raise ValueError("unitcell_from_vectors: alpha / beta / gamma assignments not found")
     out["unitcellAngleDots"] = [dots["alpha"], dots["beta"], dots["gamma"]]
     # --- vectors_from_unitcell: is the zeroing tolerance scaled by the SUM of the three lengths?
     f = _func(bt, "vectors_from_unitcell")
-    tols = [n for n in ast.walk(f) if isinstance(n, ast.Assign) and len(n.targets) == 1
-            and isinstance(n.targets[0], ast.Name) and n.targets[0].id == "tol"]
-    if len(tols) != 1:
-        raise ValueError("vectors_from_unitcell: `tol = ...` not found")
+    asg_ = _single_assigns(f)
+    cmps_ = [c for c in ast.walk(f) if isinstance(c, ast.Compare) and len(c.ops) == 1 and isinstance(c.ops[0], (ast.Lt, ast.LtE))
+             and any(isinstance(x, ast.Call) and _callname(x) == "abs" for x in ast.walk(c.left))]
+    if len(cmps_) != 1:
+        raise ValueError("vectors_from_unitcell: `np.abs(box) < tol` not found")
+
+    class _T:          # the tolerance expression, wherever it is written
+        value = _resolve(cmps_[0].comparators[0], asg_)
+    tols = [_T]
     lens_ = {"len_a", "len_b", "len_c"}
     out["unitcellTolUsesSum"] = any(
         isinstance(n, ast.BinOp) and isinstance(n.op, ast.Add)
@@ -311,6 +514,10 @@ def _to_lean(node, names, locals_, calls=None, vec=False):
         return f"(V3.neg {rec(node.operand)})" if vec else f"(-{rec(node.operand)})"
     if isinstance(node, ast.BinOp):
         if vec:
+            if isinstance(node.op, ast.Mult):
+                # scalar * vector (the scalar is a loop variable / number, the vector a box row)
+                sc_, ve_ = (node.left, node.right) if not isinstance(node.left, ast.Subscript) else (node.right, node.left)
+                return f"(V3.smul {rec(sc_, False)} {rec(ve_, True)})"
             if isinstance(node.op, ast.Sub):
                 return f"(V3.sub {rec(node.left)} {rec(node.right)})"
             if isinstance(node.op, ast.Add):
@@ -322,6 +529,9 @@ def _to_lean(node, names, locals_, calls=None, vec=False):
         if isinstance(node.op, ast.Pow) and isinstance(node.right, ast.Constant) and isinstance(node.right.value, int) and 0 <= node.right.value <= 4:
             return f"({rec(node.left)} ^ {node.right.value})"
         raise _Tie("unexpected operator " + type(node.op).__name__)
+    if isinstance(node, ast.Subscript) and isinstance(node.value, ast.Name) and node.value.id == "box" and isinstance(node.slice, ast.Constant) \
+            and node.slice.value in (0, 1, 2):
+        return f"b.r{node.slice.value}"
     if isinstance(node, ast.Subscript) and isinstance(node.value, ast.Name) and node.value.id == "box" and isinstance(node.slice, ast.Tuple) \
             and len(node.slice.elts) == 2 and all(isinstance(e, ast.Constant) and e.value in (0, 1, 2) for e in node.slice.elts):
         r_, c_ = (e.value for e in node.slice.elts)
@@ -378,87 +588,135 @@ def extract_structure():
     src = {m: open(os.path.join(paths.SRC, f"biotite/structure/{m}.py")).read() for m in ("geometry", "box", "transform")}
     gt, bt, tt = (ast.parse(src[m]) for m in ("geometry", "box", "transform"))
     o = {}
-    # ---- (A) the eight candidate shifts of _displacement_triclinic_box
-    f = _func(gt, "_displacement_triclinic_box")
-    asg = _assigns(f)
-    app = [n for n in ast.walk(f) if isinstance(n, ast.Call) and _callname(n) == "append" and n.args and isinstance(n.args[0], ast.List)]
-    if len(app) != 1 or len(app[0].args[0].elts) != 3:
-        raise _Tie("_displacement_triclinic_box: `periodic_shift.append([x, y, z])` not found")
-    nm = {"i": "i", "j": "j", "k": "k"}
-    loc = {k_: v_ for k_, v_ in asg.items() if k_ in ("x", "y", "z")}
-    o["triShift"] = [_to_lean(e, nm, loc) for e in app[0].args[0].elts]
-    o["triArg"] = _calls_in_order(f, {"argmin", "argmax"})
-    sd = asg.get("shifted_diffs")
-    if not (isinstance(sd, ast.BinOp) and isinstance(sd.op, ast.Add)):
-        raise _Tie("_displacement_triclinic_box: `shifted_diffs = diffs[...] + periodic_shift[...]` not found")
-    o["triDiffsFrom"] = _callname(asg["diffs"]) if isinstance(asg.get("diffs"), ast.Call) else "?"
-    sq = asg.get("sq_distance")
-    o["triKey"] = ast.unparse(sq) if sq is not None else "?"
-    # ---- (B) vectors_from_unitcell
+    # ---- (A) the eight candidate shifts of the triclinic helper (found by its argmin)
+    f = _find_func(gt, "the triclinic-box helper (argmin over candidate images)", _is_tric_helper)
+    asg = _single_assigns(f)
+    pr = _tric_product(f)
+    if pr is not None:
+        # comprehension over itertools.product: the element is a combination of whole box rows
+        comp, lv, _ = pr
+        vec = _to_lean(comp.elt, dict(zip(lv, ("i", "j", "k"))), {}, vec=True)
+        o["triShift"] = [f"({vec}).x", f"({vec}).y", f"({vec}).z"]
+        shift_list = comp
+    else:
+        loops3 = _nested3(f, "the triclinic-box helper")
+        app = [n for n in ast.walk(loops3[2]) if isinstance(n, ast.Call) and _callname(n) == "append" and n.args and isinstance(n.args[0], ast.List)]
+        if len(app) != 1 or len(app[0].args[0].elts) != 3:
+            raise _Tie("triclinic helper: `<list>.append([x, y, z])` in the innermost loop not found")
+        nm = dict(zip((lp.target.id for lp in loops3), ("i", "j", "k")))
+        loc = {k_: v_ for k_, v_ in _assigns(loops3[2]).items()}
+        o["triShift"] = [_to_lean(e, nm, loc) for e in app[0].args[0].elts]
+        shift_list = app[0].func.value                      # the list the shifts are appended to
+    sel = [n for n in ast.walk(f) if isinstance(n, ast.Call) and _callname(n) in ("argmin", "argmax")]
+    o["triArg"] = sorted(_callname(n) for n in sel)
+    key = _resolve(sel[0].args[0], asg) if sel and sel[0].args else None
+    ok_key = isinstance(key, ast.Call) and _callname(key) == "vector_dot" and len(key.args) == 2 \
+        and ast.unparse(key.args[0]) == ast.unparse(key.args[1])
+    cand = _resolve(key.args[0], asg) if ok_key else None
+    if not (isinstance(cand, ast.BinOp) and isinstance(cand.op, ast.Add)):
+        raise _Tie("triclinic helper: argmin of vector_dot(c, c) with c = unwrapped[...] + shifts[...] not found")
+    o["triKey"] = "vector_dot(c, c), c = a + s"
+
+    def base_of(e):
+        while isinstance(e, ast.Subscript):
+            e = e.value
+        return e
+    lhs = _resolve(base_of(cand.left), asg)
+    o["triDiffsFrom"] = _callname(lhs) if isinstance(lhs, ast.Call) else "?"
+    rhs = base_of(cand.right)
+    # the right operand must be the array built from the shift list
+    rhs_src = None
+    for n in ast.walk(f):
+        if isinstance(n, ast.Assign) and isinstance(n.targets[0], ast.Name) and isinstance(rhs, ast.Name) and n.targets[0].id == rhs.id \
+                and isinstance(n.value, ast.Call) and _callname(n.value) == "array":
+            rhs_src = n.value.args[0]
+    same = rhs_src is not None and (rhs_src is shift_list or (isinstance(rhs_src, ast.Name) and isinstance(shift_list, ast.Name) and rhs_src.id == shift_list.id)
+                                    or ast.dump(rhs_src) == ast.dump(shift_list))
+    if not same:
+        raise _Tie("triclinic helper: the shifts added to the unwrapped displacement are not the generated list")
+    # ---- (B) vectors_from_unitcell: the 3x3 array literal, every local inlined
     f = _func(bt, "vectors_from_unitcell")
-    asg = _assigns(f)
-    arr = asg.get("box")
-    if not (isinstance(arr, ast.Call) and _callname(arr) == "array" and isinstance(arr.args[0], ast.List) and len(arr.args[0].elts) == 3):
-        raise _Tie("vectors_from_unitcell: `box = np.array([[...], [...], [...]])` not found")
-    nm = {"len_a": "la", "len_b": "lb", "len_c": "lc", "c_z": "cz"}
+    asg = _single_assigns(f)
+    arrs = [c for c in ast.walk(f) if isinstance(c, ast.Call) and _callname(c) == "array" and c.args and isinstance(c.args[0], ast.List)
+            and len(c.args[0].elts) == 3 and all(isinstance(r_, ast.List) and len(r_.elts) == 3 for r_ in c.args[0].elts)]
+    if len(arrs) != 1:
+        raise _Tie("vectors_from_unitcell: the 3x3 `np.array([[...], [...], [...]])` not found")
+    arr = arrs[0]
+    nm = {"len_a": "la", "len_b": "lb", "len_c": "lc"}
     calls = {("cos", "alpha"): "ca", ("cos", "beta"): "cb", ("cos", "gamma"): "cg", ("sin", "gamma"): "sg"}
-    loc = {k_: v_ for k_, v_ in asg.items() if k_ in ("a_x", "b_x", "b_y", "c_x", "c_y")}
-    o["cellRows"] = [[_to_lean(e, nm, loc, calls) for e in row.elts] for row in arr.args[0].elts]
-    cz = asg.get("c_z")
-    if not (isinstance(cz, ast.Call) and _callname(cz) == "sqrt" and len(cz.args) == 1):
-        raise _Tie("vectors_from_unitcell: `c_z = np.sqrt(...)` not found")
-    o["cellCzSq"] = _to_lean(cz.args[0], nm, loc, calls)
+    roots = [k_ for k_, v_ in asg.items() if isinstance(v_, ast.Call) and _callname(v_) == "sqrt" and len(v_.args) == 1]
+    if len(roots) != 1:
+        raise _Tie("vectors_from_unitcell: exactly one component defined by `np.sqrt(...)` expected")
+    loc = {k_: v_ for k_, v_ in asg.items() if k_ != roots[0]}
+    nm_cz = dict(nm, **{roots[0]: "cz"})
+    o["cellRows"] = [[_to_lean(e, nm_cz, loc, calls) for e in row.elts] for row in arr.args[0].elts]
+    o["cellCzSq"] = _to_lean(asg[roots[0]].args[0], nm, loc, calls)
     kw = {k_.arg: ast.unparse(k_.value) for k_ in arr.keywords}
     o["cellDtype"] = kw.get("dtype", "?")
-    # ---- (C) dihedral
+    # ---- (C) dihedral: bond vectors = the locals assigned `displacement(...)`, in source order; other locals inlined
+    def bond_vectors(f_):
+        bv = sorted((n.lineno, n.targets[0].id) for n in ast.walk(f_) if isinstance(n, ast.Assign) and isinstance(n.targets[0], ast.Name)
+                    and isinstance(n.value, ast.Call) and _callname(n.value) == "displacement")
+        return {name: f"v{i + 1}" for i, (_, name) in enumerate(bv)}
     f = _func(gt, "dihedral")
-    asg = _assigns(f)
+    asg = _single_assigns(f)
     ret = [n for n in ast.walk(f) if isinstance(n, ast.Return)][0].value
-    if not (isinstance(ret, ast.Call) and _callname(ret) == "arctan2" and len(ret.args) == 2 and all(isinstance(a_, ast.Name) for a_ in ret.args)):
+    if not (isinstance(ret, ast.Call) and _callname(ret) == "arctan2" and len(ret.args) == 2):
         raise _Tie("dihedral: `return np.arctan2(y, x)` not found")
-    nm = {"v1": "v1", "v2": "v2", "v3": "v3"}
-    loc = {k_: v_ for k_, v_ in asg.items() if k_ in ("n1", "n2", "x", "y")}
+    nm = bond_vectors(f)
+    if sorted(nm.values()) != ["v1", "v2", "v3"]:
+        raise _Tie("dihedral: three bond vectors from displacement() expected")
+    loc = {k_: v_ for k_, v_ in asg.items() if k_ not in nm}
     o["dihAtan2"] = [_to_lean(a_, nm, loc) for a_ in ret.args]           # first argument = y, second = x
-    o["dihNormed"] = sorted({ast.unparse(c.args[0]) for c in ast.walk(f) if isinstance(c, ast.Call) and _callname(c) == "norm_vector"})
+    o["dihNormed"] = sorted({nm.get(ast.unparse(c.args[0]), "?") for c in ast.walk(f) if isinstance(c, ast.Call) and _callname(c) == "norm_vector"})
     # ---- (D) angle, (E) distance
     f = _func(gt, "angle")
+    nm = bond_vectors(f)
     ret = [n for n in ast.walk(f) if isinstance(n, ast.Return)][0].value
     dots = [c for c in ast.walk(ret) if isinstance(c, ast.Call) and _callname(c) == "vector_dot"]
     if not (isinstance(ret, ast.Call) and _callname(ret) == "arccos" and len(dots) == 1):
         raise _Tie("angle: `return np.arccos(... vector_dot(v1, v2) ...)` not found")
-    o["angleDot"] = [ast.unparse(a_) for a_ in dots[0].args]
-    o["angleNormed"] = sorted({ast.unparse(c.args[0]) for c in ast.walk(f) if isinstance(c, ast.Call) and _callname(c) == "norm_vector"})
+    o["angleDot"] = [nm.get(ast.unparse(a_), "?") for a_ in dots[0].args]
+    o["angleNormed"] = sorted({nm.get(ast.unparse(c.args[0]), "?") for c in ast.walk(f) if isinstance(c, ast.Call) and _callname(c) == "norm_vector"})
     clip = [c for c in ast.walk(ret) if isinstance(c, ast.Call) and _callname(c) == "clip"]
     o["angleClip"] = [ast.unparse(a_) for a_ in clip[0].args[1:]] if clip else []
     f = _func(gt, "distance")
+    nm = bond_vectors(f)
     ret = [n for n in ast.walk(f) if isinstance(n, ast.Return)][0].value
     if not (isinstance(ret, ast.Call) and _callname(ret) == "sqrt" and isinstance(ret.args[0], ast.Call) and _callname(ret.args[0]) == "vector_dot"):
         raise _Tie("distance: `return np.sqrt(vector_dot(diff, diff))` not found")
-    o["distanceDot"] = [ast.unparse(a_) for a_ in ret.args[0].args]
+    o["distanceDot"] = [nm.get(ast.unparse(a_), "?") for a_ in ret.args[0].args]
     # ---- (F) displacement: the difference, the dispatch, the order of the steps
     f = _func(gt, "displacement")
     ifs = [n for n in ast.walk(f) if isinstance(n, ast.If) and isinstance(n.test, ast.Compare) and "shape" in ast.unparse(n.test)]
     if len(ifs) != 1:
         raise _Tie("displacement: the `if len(v1.shape) <= len(v2.shape)` branch not found")
     br = ifs[0]
+    cv = {n.targets[0].id: ast.unparse(n.value.args[0]) for n in ast.walk(f) if isinstance(n, ast.Assign) and isinstance(n.targets[0], ast.Name)
+          and isinstance(n.value, ast.Call) and _callname(n.value) == "coord" and len(n.value.args) == 1}
+    vmap = {loc_: {"atoms1": "v1", "atoms2": "v2"}.get(arg_, "?") for loc_, arg_ in cv.items()}
 
     def diff_of(stmts):
-        a_ = [n for st in stmts for n in ast.walk(st) if isinstance(n, ast.Assign) and getattr(n.targets[0], "id", "") == "diff"]
+        a_ = [n for st in stmts for n in ast.walk(st) if isinstance(n, ast.Assign)]
         if len(a_) != 1:
-            raise _Tie("displacement: `diff = ...` not found in a branch")
-        return _to_lean(a_[0].value, {"v1": "v1", "v2": "v2"}, {}, vec=True)
+            raise _Tie("displacement: exactly one assignment per shape branch expected")
+        return _to_lean(a_[0].value, vmap, {}, vec=True)
     o["dispDiff"] = [diff_of(br.body), diff_of(br.orelse)]
+    ortho_name = _find_func(gt, "the orthogonal-box helper", _is_ortho_helper).name
+    tric_name = _find_func(gt, "the triclinic-box helper", _is_tric_helper).name
+    role = {ortho_name: "ORTHO", tric_name: "TRIC"}
     disp_tab = []
     for n in ast.walk(f):
-        if isinstance(n, ast.If) and isinstance(n.test, ast.Name) and n.test.id.startswith("orthogonality"):
-            t_ = [_callname(c) for st in n.body for c in ast.walk(st) if isinstance(c, ast.Call) and _callname(c).startswith("_displacement")]
-            e_ = [_callname(c) for st in n.orelse for c in ast.walk(st) if isinstance(c, ast.Call) and _callname(c).startswith("_displacement")]
-            disp_tab.append((n.lineno, t_[0] if len(t_) == 1 else "?", e_[0] if len(e_) == 1 else "?"))
+        if isinstance(n, ast.If) and isinstance(n.test, ast.Name):
+            t_ = [role[_callname(c)] for st in n.body for c in ast.walk(st) if isinstance(c, ast.Call) and _callname(c) in role]
+            e_ = [role[_callname(c)] for st in n.orelse for c in ast.walk(st) if isinstance(c, ast.Call) and _callname(c) in role]
+            if t_ or e_:
+                disp_tab.append((n.lineno, t_[0] if len(t_) == 1 else "?", e_[0] if len(e_) == 1 else "?"))
     o["dispDispatch"] = [(a_, b_) for _, a_, b_ in sorted(disp_tab)]
     steps = [(n.lineno, _callname(n)) for n in ast.walk(f) if isinstance(n, ast.Call) and _callname(n) in ("coord_to_fraction", "is_orthogonal")]
     steps += [(n.lineno, "mod") for n in ast.walk(f) if isinstance(n, ast.BinOp) and isinstance(n.op, ast.Mod)]
     o["dispSteps"] = [x for _, x in sorted(steps)]
-    f = _func(gt, "_displacement_orthogonal_box")
+    f = _find_func(gt, "the orthogonal-box helper", _is_ortho_helper)
     o["orthoSteps"] = _calls_in_order(f, {"fraction_to_coord", "coord_to_fraction"})
     # ---- (K) fractions
     for fname, key in (("coord_to_fraction", "c2f"), ("fraction_to_coord", "f2c")):
@@ -471,86 +729,153 @@ def extract_structure():
     o["moveSteps"] = _calls_in_order(f, {"coord_to_fraction", "fraction_to_coord"})
     # ---- (L) is_orthogonal comparison, box_volume
     f = _func(bt, "is_orthogonal")
-    cmp_ops = {type(c.ops[0]).__name__ for c in ast.walk(f) if isinstance(c, ast.Compare) and isinstance(c.comparators[0], ast.Name) and c.comparators[0].id == "tol"}
+    cmp_ops = {type(c.ops[0]).__name__ for c in ast.walk(f) if isinstance(c, ast.Compare) and len(c.ops) == 1
+               and any(isinstance(x, ast.Call) and _callname(x) == "vector_dot" for x in ast.walk(c.left))}
     o["orthoCmp"] = sorted(cmp_ops)
     combos = {type(n.op).__name__ for n in ast.walk(f) if isinstance(n, ast.BinOp) and isinstance(n.op, (ast.BitAnd, ast.BitOr))}
+    combos |= {type(n.op).__name__ for n in ast.walk(f) if isinstance(n, ast.BoolOp)}
     o["orthoCombine"] = sorted(combos)
     f = _func(bt, "box_volume")
     ret = [n for n in ast.walk(f) if isinstance(n, ast.Return)][0].value
     o["volume"] = [_callname(c) for c in ast.walk(ret) if isinstance(c, ast.Call)]
     # ---- (G) repeat_box_coord
     f = _func(bt, "repeat_box_coord")
-    arr = [c for c in ast.walk(f) if isinstance(c, ast.Call) and _callname(c) == "array" and c.args and isinstance(c.args[0], ast.List)]
+    loops3 = _nested3(f, "repeat_box_coord")
+    lv = dict(zip((lp.target.id for lp in loops3), ("i", "j", "k")))
+    asg = _single_assigns(f)
+    arr = [c for c in ast.walk(loops3[2]) if isinstance(c, ast.Call) and _callname(c) == "array" and c.args and isinstance(c.args[0], ast.List)]
     if len(arr) != 1:
         raise _Tie("repeat_box_coord: `np.array([i, j, k])` not found")
-    o["repVec"] = [ast.unparse(e) for e in arr[0].args[0].elts]
+    o["repVec"] = [lv.get(ast.unparse(e), "?") for e in arr[0].args[0].elts]
     sums = [c for c in ast.walk(f) if isinstance(c, ast.Call) and _callname(c) == "sum"]
     o["repSumAxis"] = [ast.unparse(k_.value) for c in sums for k_ in c.keywords if k_.arg == "axis"]
     cat = [c for c in ast.walk(f) if isinstance(c, ast.Call) and _callname(c) == "concatenate"]
-    o["repCatAxis"] = [ast.unparse(k_.value) for c in cat for k_ in c.keywords if k_.arg == "axis"]
-    first = _assigns(f).get("coords_for_boxes")
+    if len(cat) != 1 or not cat[0].args:
+        raise _Tie("repeat_box_coord: `np.concatenate(list, axis=...)` not found")
+    o["repCatAxis"] = [ast.unparse(k_.value) for k_ in cat[0].keywords if k_.arg == "axis"]
+    lst = cat[0].args[0]
+    first = None
+    for n in ast.walk(f):
+        if isinstance(n, ast.Assign) and isinstance(n.targets[0], ast.Name) and isinstance(lst, ast.Name) and n.targets[0].id == lst.id:
+            first = n.value
     o["repFirst"] = [ast.unparse(e) for e in first.elts] if isinstance(first, ast.List) else ["?"]
     tile = [c for c in ast.walk(f) if isinstance(c, ast.Call) and _callname(c) == "tile"]
     if len(tile) != 1 or len(tile[0].args) != 2:
         raise _Tie("repeat_box_coord: `np.tile(np.arange(n), count)` not found")
     o["repCount"] = _to_lean(tile[0].args[1], {"amount": "amount"}, {}).replace(": Rat", ": Int")
     o["repTypeCheck"] = [ast.unparse(c.args[1]) for c in ast.walk(f) if isinstance(c, ast.Call) and _callname(c) == "isinstance"]
-    o["repAdds"] = [type(n.op).__name__ for n in ast.walk(f) if isinstance(n, ast.AugAssign) and getattr(n.target, "id", "") == "temp_coord"]
-    # ---- (H) remove_pbc_from_coord
+    o["repAdds"] = [type(n.op).__name__ for n in ast.walk(loops3[2]) if isinstance(n, ast.AugAssign)]
+    # ---- (H) remove_pbc_from_coord (locals in alpha-normal form, found through the public functions they feed)
     f = _func(bt, "remove_pbc_from_coord")
-    asg = _assigns(f)
-    ar = [c for c in ast.walk(asg["index_pairs"]) if isinstance(c, ast.Call) and _callname(c) == "arange"]
+    asg = _single_assigns(f)
+    idc = [c for c in ast.walk(f) if isinstance(c, ast.Call) and _callname(c) == "index_displacement"]
+    if len(idc) != 1 or len(idc[0].args) < 2:
+        raise _Tie("remove_pbc_from_coord: call of index_displacement(coord, pairs, ...) not found")
+    pairs_expr = _resolve(idc[0].args[1], asg)
+    ar = [c for c in ast.walk(pairs_expr) if isinstance(c, ast.Call) and _callname(c) == "arange"]
     o["rpbcPairs"] = [[ast.unparse(a_) for a_ in c.args] for c in ar]
-    idc = asg.get("neighbour_disp")
-    o["rpbcDisp"] = [_callname(idc)] + sorted(f"{k_.arg}={ast.unparse(k_.value)}" for k_ in idc.keywords) if isinstance(idc, ast.Call) else ["?"]
-    cs = asg.get("absolute_disp")
-    o["rpbcCumsum"] = [_callname(cs)] + [f"{k_.arg}={ast.unparse(k_.value)}" for k_ in cs.keywords] if isinstance(cs, ast.Call) else ["?"]
-    bc = asg.get("base_coord")
-    o["rpbcBase"] = [_callname(bc), ast.unparse(bc.args[0])] if isinstance(bc, ast.Call) else ["?", ast.unparse(bc) if bc is not None else "?"]
-    sets = [(ast.unparse(n.targets[0]), ast.unparse(n.value)) for n in ast.walk(f) if isinstance(n, ast.Assign) and isinstance(n.targets[0], ast.Subscript)
-            and getattr(n.targets[0].value, "id", "") == "sanitized_coord"]
+    o["rpbcDisp"] = ["index_displacement"] + sorted(f"{k_.arg}={ast.unparse(k_.value)}" for k_ in idc[0].keywords)
+    cs = [c for c in ast.walk(f) if isinstance(c, ast.Call) and _callname(c) == "cumsum"]
+    if len(cs) != 1 or _resolve(cs[0].args[0], asg) is not idc[0]:
+        raise _Tie("remove_pbc_from_coord: `np.cumsum(<index_displacement result>, axis=...)` not found")
+    o["rpbcCumsum"] = ["cumsum"] + [f"{k_.arg}={ast.unparse(k_.value)}" for k_ in cs[0].keywords]
+    mv = [c for c in ast.walk(f) if isinstance(c, ast.Call) and _callname(c) == "move_inside_box"]
+    o["rpbcBase"] = ["move_inside_box", ast.unparse(mv[0].args[0])] if len(mv) == 1 else ["?", "?"]
+    tag = {}
+    for k_, v_ in asg.items():
+        if v_ is cs[0]:
+            tag[k_] = "CUM"
+        elif mv and v_ is mv[0]:
+            tag[k_] = "BASE"
+    sets = []
+    for n in ast.walk(f):
+        if isinstance(n, ast.Assign) and isinstance(n.targets[0], ast.Subscript) and isinstance(n.targets[0].value, ast.Name):
+            out_name = n.targets[0].value.id
+            sets.append((_unp(n.targets[0], {out_name: "OUT"}), _unp(n.value, tag)))
     o["rpbcAssign"] = sorted(sets)
     # ---- (I) remove_pbc
     f = _func(bt, "remove_pbc")
-    loops = [n for n in ast.walk(f) if isinstance(n, ast.For) and getattr(n.target, "id", "") == "mask"]
+    asg = _single_assigns(f)
+    mask_ifs = [n for n in ast.walk(f) if isinstance(n, ast.If) and "bonds" in ast.unparse(n.test)
+                and any(isinstance(c, ast.Call) and _callname(c) in ("get_molecule_masks", "get_chain_masks") for c in ast.walk(n))]
+    if len(mask_ifs) != 1:
+        raise _Tie("remove_pbc: the choice between molecule and chain masks (`atoms.bonds is None`) not found")
+    mi = mask_ifs[0]
+    t_ = mi.test
+    bonds_present_then = isinstance(t_, ast.Compare) and isinstance(t_.ops[0], ast.IsNot)
+    if not (isinstance(t_, ast.Compare) and isinstance(t_.ops[0], (ast.Is, ast.IsNot)) and ast.unparse(t_.left) == "atoms.bonds"):
+        raise _Tie("remove_pbc: unexpected test on atoms.bonds")
+    with_bonds, without = (mi.body, mi.orelse) if bonds_present_then else (mi.orelse, mi.body)
+    o["rpMasks"] = [_calls_in_order(ast.Module(body=list(with_bonds), type_ignores=[]), {"get_molecule_masks", "get_chain_masks"})[0],
+                    _calls_in_order(ast.Module(body=list(without), type_ignores=[]), {"get_molecule_masks", "get_chain_masks"})[0]]
+    mask_names = {n.targets[0].id for st in mi.body + mi.orelse for n in ast.walk(st) if isinstance(n, ast.Assign) and isinstance(n.targets[0], ast.Name)}
+    loops = [n for n in ast.walk(f) if isinstance(n, ast.For) and isinstance(n.iter, ast.Name) and n.iter.id in mask_names]
     if len(loops) != 1:
-        raise _Tie("remove_pbc: `for mask in molecule_masks` not found")
+        raise _Tie("remove_pbc: the loop over the molecule masks not found")
     lp = loops[0]
-    o["rpLoopCalls"] = _calls_in_order(lp, {"remove_pbc_from_coord", "centroid", "move_inside_box"})
-    o["rpOutsideCalls"] = [c for c in _calls_in_order(f, {"remove_pbc_from_coord", "centroid", "move_inside_box"})][len(o["rpLoopCalls"]):]
-    o["rpShift"] = [ast.unparse(n.value) for n in ast.walk(lp) if isinstance(n, ast.AugAssign) and isinstance(n.op, ast.Add)]
-    o["rpSelection"] = [ast.unparse(n) for n in ast.walk(lp) if isinstance(n, ast.AugAssign) and isinstance(n.op, ast.BitAnd)]
-    o["rpMasks"] = _calls_in_order(f, {"get_molecule_masks", "get_chain_masks"})
+    wanted = {"remove_pbc_from_coord", "centroid", "move_inside_box"}
+    o["rpLoopCalls"] = _calls_in_order(lp, wanted)
+    o["rpOutsideCalls"] = _calls_in_order(f, wanted)[len(o["rpLoopCalls"]):] if _calls_in_order(f, wanted)[:len(o["rpLoopCalls"])] == o["rpLoopCalls"] else ["?"]
+    lasg = _single_assigns(lp)
+    ren = _alpha_map(f)
+    tagl = {}
+    for k_, v_ in lasg.items():
+        if isinstance(v_, ast.Call) and _callname(v_) == "move_inside_box":
+            tagl[k_] = "INBOX"
+        elif any(isinstance(c, ast.Call) and _callname(c) == "centroid" for c in ast.walk(v_)):
+            tagl[k_] = "CENTER"
+    o["rpShift"] = [_unp(n.value, tagl) for n in ast.walk(lp) if isinstance(n, ast.AugAssign) and isinstance(n.op, ast.Add)]
+    o["rpSelection"] = ["&= " + ast.unparse(n.value) for n in ast.walk(lp) if isinstance(n, ast.AugAssign) and isinstance(n.op, ast.BitAnd)
+                        and isinstance(n.target, ast.Name) and n.target.id == lp.target.id]
     rp_call = [c for c in ast.walk(lp) if isinstance(c, ast.Call) and _callname(c) == "remove_pbc_from_coord"]
-    o["rpArgs"] = [ast.unparse(a_) for a_ in rp_call[0].args] if rp_call else []
-    # ---- (J) the index wrappers and _call_non_index_function
+    copies = {k_ for k_, v_ in asg.items() if isinstance(v_, ast.Call) and ast.unparse(v_) == "atoms.copy()"}
+    o["rpArgs"] = [_unp(a_, {**{c_: "COPY" for c_ in copies}, lp.target.id: "MASK"}) for a_ in rp_call[0].args] if rp_call else []
+    # ---- (J) the index wrappers and their common dispatcher
+    disp_f = _index_dispatcher(gt)
     tab = []
     for wname in ("index_displacement", "index_distance", "index_angle", "index_dihedral"):
         f = _func(gt, wname)
-        c = [c for c in ast.walk(f) if isinstance(c, ast.Call) and _callname(c) == "_call_non_index_function"]
+        c = [c for c in ast.walk(f) if isinstance(c, ast.Call) and _callname(c) == disp_f.name]
         if len(c) != 1 or len(c[0].args) < 2:
-            raise _Tie(f"{wname}: call of _call_non_index_function not found")
+            raise _Tie(f"{wname}: call of the index dispatcher not found")
         tab.append((wname, ast.unparse(c[0].args[0]), int(ast.unparse(c[0].args[1]))))
     o["indexWrappers"] = tab
-    f = _func(gt, "_call_non_index_function")
+    f = disp_f
+    priv = _param_names(f)[:2]                      # (function, width): only ever passed positionally by the wrappers
+    ren = _alpha_map(f, private_params=priv)
     first = f.body[1] if isinstance(f.body[0], ast.Expr) else f.body[0]
-    o["indexFirstCheck"] = [ast.unparse(first.test), _raises(first)[0] if _raises(first) else "?"] if isinstance(first, ast.If) else ["?", "?"]
-    gath = [ast.unparse(n.args[0]) for n in ast.walk(f) if isinstance(n, ast.Call) and _callname(n) == "append"]
-    o["indexGather"] = gath
+    o["indexFirstCheck"] = [_unp(first.test, ren), _raises(first)[0] if _raises(first) else "?"] if isinstance(first, ast.If) else ["?", "?"]
+    asg = _single_assigns(f)
+    gath = []
+    for n in ast.walk(f):
+        if isinstance(n, ast.Call) and _callname(n) == "append" and n.args:
+            gath.append(n.args[0])
+        elif isinstance(n, ast.ListComp) and any(isinstance(c, ast.Subscript) for c in ast.walk(n.elt)):
+            gath.append(n.elt)
+    idxvar = {}
+    for n in ast.walk(f):
+        if isinstance(n, (ast.For,)) and isinstance(n.target, ast.Name) and isinstance(n.iter, ast.Call) and _callname(n.iter) == "range":
+            idxvar[n.target.id] = "COL"
+        if isinstance(n, ast.comprehension) and isinstance(n.target, ast.Name) and isinstance(n.iter, ast.Call) and _callname(n.iter) == "range":
+            idxvar[n.target.id] = "COL"
+    inl = {k_: v_ for k_, v_ in asg.items() if isinstance(v_, ast.Call) and _callname(v_) == "coord"}
+    o["indexGather"] = [_unp(g_, idxvar, inline=inl) for g_ in gath]
     # ---- (M) defaults, (N) exception classes
     defs = []
-    for t_, names_ in ((gt, ("displacement", "distance", "angle", "dihedral", "_call_non_index_function")),
+    dname = _index_dispatcher(gt).name
+    canon = {dname: "INDEX_DISPATCHER"}
+    for t_, names_ in ((gt, ("displacement", "distance", "angle", "dihedral", dname)),
                        (bt, ("repeat_box", "repeat_box_coord", "remove_pbc")),
                        (tt, ("rotate_about_axis", "align_vectors", "orient_principal_components"))):
         for fn_ in names_:
             for a_, d_ in sorted(_defaults(_func(t_, fn_)).items()):
-                defs.append((fn_, a_, d_))
+                defs.append((canon.get(fn_, fn_), a_, d_))
     o["defaults"] = defs
     rz = []
-    for t_, names_ in ((gt, ("displacement", "_call_non_index_function")), (bt, ("repeat_box", "repeat_box_coord", "remove_pbc")),
+    for t_, names_ in ((gt, ("displacement", dname)), (bt, ("repeat_box", "repeat_box_coord", "remove_pbc")),
                        (tt, ("translate", "rotate", "rotate_about_axis", "align_vectors", "orient_principal_components"))):
         for fn_ in names_:
-            rz.append((fn_, _raises(_func(t_, fn_))))
+            rz.append((canon.get(fn_, fn_), _raises(_func(t_, fn_))))
     o["raises"] = rz
     return o
 
